@@ -411,6 +411,25 @@ theorem reachable_range_scan_exact (t : TableMeta) (hpk : t.primary = [0]) (ops 
   rw [hpk] at hs
   exact guarded_range_scan_exact t e 0 r _ cols han hg hcols hkin hwt (by simpa [ascKeys] using hs) hblocks
 
+/-- The scan a key-range DELETE performs: the scan list also holds the row-handler column. In the
+model the handler is one more column (`withHandler`: index `w`, value = row-set id and row id), filled
+for every stored row up to the row-set's TOTAL row count whatever the seek position; with it the
+range scan is exact as well, so the DELETE sees exactly the handlers of the rows in range.
+(An implementation whose handler column ends elsewhere - seeded change s5c13 - is a deviation from
+this model: it is caught by the correspondence and by the DELETE oracle, not by this theorem.) -/
+theorem range_scan_exact_with_handler (w : Nat) (rs : RowSet) (cols : List Nat) (r : KeyRange)
+    (hfirst : (cols ++ [w]).headD 0 = 0)
+    (hsorted : SortedBy (keyCmp [⟨0, false⟩]) (withHandler w rs).rows)
+    (hkeys : keysI32 (withHandler w rs) 0 = true) (hlo : bndI32 r.lo = true) (hhi : bndI32 r.hi = true)
+    (hblocks : blocksOk (withHandler w rs) = true) :
+    RangeScanExact (withHandler w rs) (cols ++ [w]) r 0 :=
+  rowset_range_scan_exact (withHandler w rs) (cols ++ [w]) r 0 rfl hfirst hsorted hkeys hlo hhi hblocks
+
+example : RangeScanExact (withHandler 1 { id := 3, rows := [[.i32 1], [.i32 2], [.i32 4], [.i32 5]], dead := [1], blocks := [[2, 2]] })
+    [0, 1] ⟨.incl (.i32 2), .unb⟩ 0
+    ∧ scanRowSet (withHandler 1 { id := 3, rows := [[.i32 1], [.i32 2], [.i32 4], [.i32 5]], dead := [1], blocks := [[2, 2]] }) [0, 1]
+        (some ⟨.incl (.i32 4), .unb⟩) = .ok [[.i32 4, .i64 12884901890], [.i32 5, .i64 12884901891]] := by decide
+
 example : rangeGuard { primary := [0], sortedByPk := true, intCols := [0, 1] }
     (.and (.cmp .gt (.col 0) (.const (.i32 1))) (.cmp .le (.col 0) (.const (.i32 5)))) = true := by decide
 
